@@ -82,7 +82,11 @@ def _checker_validation(pid):
     from . import selftest
     from .selftest_variants import VARIANTS
     vs = [v for v in VARIANTS if pid in (v.get("props") or [v.get("prop")])]
-    vs += [v for v in selftest.load_seeded() if pid in v["props"]]
+    # seeded changes: the property-breaking ones filed under this property; every behaviour-preserving refactoring, run against
+    # THIS property's check only (the whole corpus against all properties is `./check --selftest`)
+    for v in selftest.load_seeded():
+        if pid in v["props"]:
+            vs.append(dict(v, props=[pid]) if (v.get("expect") is None or v.get("kind") == "benign") else v)
     os.environ["SA_NO_SELFVALIDATION"] = "1"
     with ThreadPoolExecutor(max_workers=16) as ex:
         res = list(ex.map(selftest.run_variant, vs))
